@@ -860,6 +860,9 @@ func TestReplay(t *testing.T) {
 	if err != nil {
 		t.Fatal(err)
 	}
+	if ev.ReplayFuzz(t, rf, fuzzProps, nil) {
+		return
+	}
 	var c Case
 	if err := json.Unmarshal(rf.Case, &c); err != nil || c.Kind == "" {
 		t.Fatalf("cannot decode replay case: %v", err)
